@@ -1,0 +1,70 @@
+//go:build verif
+
+package pdf
+
+import (
+	"bytes"
+
+	"seehuhn.de/go/pdf/internal/filter/jbig2"
+	"seehuhn.de/go/pdf/internal/filter/predict"
+	"seehuhn.de/go/pdf/internal/limits"
+)
+
+// This file is only compiled with the build tag "verif".  It exposes small
+// unexported pure functions (and functions of internal packages) to the
+// external verification harness; it adds no behaviour of its own.
+
+func VerifHexDigit(c byte) byte { return hexDigit(c) }
+
+func VerifDecodeInt(buf []byte) (int64, error) { return decodeInt(buf) }
+
+func VerifEncodeInt64(x uint64, w int) ([]byte, error) {
+	buf := &bytes.Buffer{}
+	err := encodeInt64(buf, x, w)
+	return buf.Bytes(), err
+}
+
+func VerifStdSecPToPerm(R int, P uint32) Perm { return stdSecPToPerm(R, P) }
+func VerifStdSecPermToP(perm Perm) uint32     { return stdSecPermToP(perm) }
+func VerifPermCanR2(perm Perm) bool           { return perm.canR2() }
+
+func VerifUnpadPKCS7(buf []byte) ([]byte, error) { return unpadPKCS7(buf) }
+
+func VerifIsSecondClassName(x Name) bool { return x.isSecondClassName() }
+func VerifIsThirdClassName(x Name) bool  { return x.isThirdClassName() }
+
+func VerifPredictorIsValid(p FlatePredictor) bool { return p.isValid() }
+func VerifValidateFlateLZW(v Version, p FlatePredictor, colors, bpc, columns int) error {
+	return validateFlateLZW(v, p, colors, bpc, columns)
+}
+func VerifFlateValidate(f FilterFlate, v Version) error    { return f.validate(v) }
+func VerifLZWValidate(f FilterLZW, v Version) error        { return f.validate(v) }
+func VerifCCITTValidate(f FilterCCITTFax, v Version) error { return f.validate(v) }
+
+// internal/filter/predict
+
+func VerifPaeth(a, b, c byte) byte { return predict.VerifPaeth(a, b, c) }
+
+// VerifPredictParams returns Validate() and the four derived sizes.
+func VerifPredictParams(colors, bpc, columns, predictor int) (bitsPerPixel, bitsPerRow, bytesPerRow, bytesPerPixel int, err error) {
+	return predict.VerifParams(colors, bpc, columns, predictor)
+}
+
+// internal/limits
+
+func VerifImageDataLimit(w, h, c, b int) int64       { return limits.ImageDataLimit(w, h, c, b) }
+func VerifImageBytesExceedLimit(w, h, c, b int) bool { return limits.ImageBytesExceedLimit(w, h, c, b) }
+func VerifImagePixelsExceedLimit(w, h int) bool      { return limits.ImagePixelsExceedLimit(w, h) }
+func VerifStreamBudget(n int64) int64                { return limits.StreamBudget(n) }
+func VerifShadingBudget(n int64) int64               { return limits.ShadingBudget(n) }
+func VerifMaxXRefEntries(n int64) int64              { return limits.MaxXRefEntries(n) }
+
+func VerifTryCrop(s String, l int) String { return tryCrop(s, l) }
+
+// internal/filter/jbig2
+
+func VerifJBIG2WorkLimit(rawLen int64) int64 { return jbig2.VerifWorkLimit(rawLen) }
+func VerifJBIG2CheckBitmapSize(width, height int) error {
+	return jbig2.VerifCheckBitmapSize(width, height)
+}
+func VerifJBIG2CheckedMul(a, b int) (int, error) { return jbig2.VerifCheckedMul(a, b) }
